@@ -43,6 +43,20 @@ Reading (chosen so that the minimally repaired code is right; DESIGN.md "### C14
     1e6*ppq*t/mpq in float32 for a float32 t; `_tick_safe`), and *given ticks* (`note_on_tick`, `note_off_tick`) of
     unsigned or narrow numpy types: "a given tick is used as it is", in the arithmetic of its own type
     (`2880 - np.uint8(100)` raises, `1740 - np.uint16(1743)` wraps) - ticks are typed int / np.int32 / np.int64 / np.intp.
+  * (round 5) "a performance's parts" = the `PerformedPart` objects handed to `Performance(...)`: one part, or any
+    iterable of parts - the annotated argument type `Union[PerformedPart, Iterable[PerformedPart]]`, so also a tuple,
+    a generator, `map`, `iter` (fixes/C14-6).  Their track numbers "are made unique" by `Performance(parts)` with its
+    arguments left at their defaults (or `ensure_unique_tracks=True`) and by every later `sanitize_track_numbers()`:
+    the new number is a function of (part, old track) over notes, controls and programs, injective; "without mixing
+    parts" includes the key / time signatures and other meta events of a part: one that was on a track of its part's
+    notes, controls or programs is renumbered with them (the code leaves the others alone: no claim).  `perf[i] = pp`
+    and `performedparts.append(pp)` renumber nothing: claims are made after the next renumbering.
+  * (round 5) "setting it recomputes every note": from the notes the part holds at that moment (after `del
+    pp.notes[i]`, `pp.notes.insert(...)`, copies) AND the control stream as it is at that moment (after
+    `pp.controls.append(c)`, `del pp.controls[i]`, `pp.controls[i]["value" | "time" | "number"] = v`, `pp.controls = [...]`).
+    The keyword defaults (threshold, ppq, mpq, `adjust_offsets_w_sustain(threshold=...)`) are not fixed by the property:
+    every clause is judged under whatever value is in force, and the model takes them from the regenerated tables.
+    The reader side of `PerformedNote` (`note[key]`, `in`, `len`, `del`, `copy`) is compared with the model only.
 """
 import os
 from fractions import Fraction
@@ -53,7 +67,8 @@ from core import Eval
 PROPERTY = "C14"
 DRIVER = "drv_c14"
 PROPS = ["PartituraModel.Props.C14", "PartituraModel.Props.C14Dict", "PartituraModel.Props.C14Arrays",
-         "PartituraModel.Props.C14Types"]
+         "PartituraModel.Props.C14Types", "PartituraModel.Props.C14Hist", "PartituraModel.Props.C14Box",
+         "PartituraModel.Props.C14Tables"]
 TRUSTED = [
     "numpy primitives through their documented contracts: argsort(kind='stable') returns a stable sort "
     "(Props.C14Arrays.stable_sort_unique: every list meeting the contract IS the model's sortBy), searchsorted(left) "
@@ -72,15 +87,33 @@ TRUSTED = [
     "(sampled against numpy, case kind npst); np.vstack / np.minimum / comparisons promote and never lose a value; "
     "np.fromiter(dtype=float) gives a float array whatever the elements.  Not modelled: all-bool lists (bool array), "
     "uint64 mixed with signed integers (float64), float16",
+    "harness/translate_c14.py (round 5): the constants of Gen/C14Tables.lean are obtained by CALLING the live functions on "
+    "small probes (controller numbers 0..127, pitch / velocity -3..131, note_on / note_on_tick -3..3, track -4..4, 12 "
+    "parts for the id prefix, a fixed key universe for `_accepted_keys`) and keyword defaults by inspect.signature: a "
+    "dependence that only shows outside those probes is not seen by the translator (it is by the correspondence streams)",
+    "Python list statements on `pp.notes` / `pp.controls` / `perf.performedparts` (del, insert, append, item assignment) "
+    "and `isinstance(x, typing.Iterable)` are modelled as the list functions removeAt / insertAt / setAt and the three-way "
+    "`PerfArg`; negative indices are not generated",
 ]
 PARTIAL = [
     "pedal down at the release with no later pedal-up event and no later re-strike: the property names no moment; "
-    "the theorem gives the code's sentinel max(last pedal time, last release)+1 (pedal_down_never_released)",
-    "a note dictionary with both `pitch` and `midi_pitch` and different values: only `pitch` is validated, the readers use "
-    "`midi_pitch` (raw_build_refines has the hypothesis that the keys agree; the model mirrors the code either way)",
-    "note[key] = v does not re-establish sound_off >= note_off or note_on <= note_off (set_off_can_pass_sound_off): "
-    "the theorems about sounding ends hold after the next threshold assignment (step_thr), not between assignments",
+    "the theorem gives the code's sentinel max(last pedal time, last release)+1 (pedal_down_never_released; the pads are "
+    "regenerated and stated by closing_pads)",
+    "a note dictionary with both `pitch` and `midi_pitch` and different values is outside the reading; what the code does "
+    "with it is now stated exactly (both_pitch_keys: `pitch` is validated and kept, `midi_pitch` is kept unvalidated and is "
+    "what the pedal adjustment and note_array read, the first accepted `note[\"pitch\"] = v` makes them equal); "
+    "raw_build_refines keeps the hypothesis that the keys agree",
+    "note[key] = v: exactly `note_on` may break onset <= release, exactly `note_off` may break release <= sounding end, exactly "
+    "`note_on_tick` may break the tick order (setitem_keeps_* / setters_can_break); the sounding-end theorems hold after the "
+    "next threshold assignment (xhistory_recompute), between assignments only under xhistory_sounds' hypothesis "
+    "(no `note_off` assigned)",
     "Performance([]).note_array() raises (np.hstack of nothing): mirrored, no claim",
+    "a key / time signature or other meta event on a track that none of its part's notes, controls and programs is on keeps "
+    "its number (metas_follow): it may coincide with a new number of another part - mirrored, no claim",
+    "`perf[i] = pp` and `performedparts.append(pp)` do not renumber (box_set_append): uniqueness is proved for the state after "
+    "each renumbering (box_history_unique), not between",
+    "the reader side of PerformedNote (`note[key]`, `in`, `len`, `del`, `copy`, reader_keys / copy_iff_valid) is modelled and "
+    "compared; the property says nothing about it, so there is no oracle clause (a disagreement is reported without a failing input)",
 ]
 RULE = ("random performed parts: 0-9 notes over 1-3 pitches with times from a small per-case pool of multiples of 1/64 "
         "(forcing overlapping/repeated/zero-length notes and exact coincidences of pedal events with releases and onsets, "
@@ -98,6 +131,13 @@ RULE = ("random performed parts: 0-9 notes over 1-3 pitches with times from a sm
         "one per element out of int, np.int8..64, np.uint8..64, np.intp, bool (0/1); pitches, velocities, tracks, "
         "channels, control numbers / values, thresholds and given ticks as numpy / Python ints (rarely a float holding "
         "the integer); statements note[key] = value and appended notes typed alike; track numbers of several types. "
+        "Round 5: histories in which notes are also removed / inserted / copied and the control stream is edited in place "
+        "(append, delete, number / time / value of one event, replacement) with a threshold assignment after most edits "
+        "(kind xhist); one PerformedNote under assignments, reads, `in`, `len`, `del`, `copy` (kind note); parts built with "
+        "the keyword defaults and adjust_offsets_w_sustain called directly (kind defaults); Performance(arg) for a list, "
+        "tuple, generator, iter, map, single part, list with a foreign item, non-iterable, string, dict x ensure_unique_tracks "
+        "given / left out x parts whose notes, controls, programs and key / time signatures / other meta events sit on "
+        "shared, missing (-1) and unused tracks, then `perf[i] = pp`, append and renumberings (kind box). "
         "distinct = distinct "
         "request text; non-trivial = at least one note and one pedal event (part/hist cases), at least two (part, track) "
         "keys (track cases), at least two notes (perf), non-empty array (ss/asort)")
@@ -109,7 +149,15 @@ LEVEL_TEXT = ("Lean theorems over the executable model of PerformedNote (constru
               "implementation's outputs by an independent reference pedal simulation.  Round 4: the dtype of the "
               "sounding-end array is explicit in the model (PedalTypes.soundOffsD); kinds_irrelevant proves that with the "
               "code's dtype=float the number types of the dictionaries cannot change a sounding end, and every clause of "
-              "the oracle is evaluated on typed parts and against the same values as plain floats.")
+              "the oracle is evaluated on typed parts and against the same values as plain floats.  Round 5: the "
+              "constants of the source (controller number, comparison, pads, defaults of missing keys / columns / "
+              "keywords, accepted keys, validator ranges, array columns, id prefix) are REGENERATED on every run "
+              "(Gen/C14Tables.lean) - the model uses them, Props/C14Tables.lean states the ones the property fixes; "
+              "every PerformedNote setter is classified by the invariant it re-establishes / keeps / may break; "
+              "'setting it recomputes every note' is proved over histories that also remove, insert and copy notes "
+              "and edit the control stream in place (xhistory_recompute); the Performance container is modelled with "
+              "its argument dispatch and the meta events, renumbering is proved total, unique, num_tracks-preserving "
+              "and idempotent (sanitize_box_spec, sanitize_box_idempotent) over every history of statements on it.")
 
 G = 64  # time grid: multiples of 1/G
 
@@ -593,6 +641,135 @@ def gen_tracks(rng):
     return {"k": "tracks", "parts": parts}
 
 
+
+# ---------------------------------------------------------------------------------- round 5: more of the code in the model
+NKEYS = ["id", "pitch", "midi_pitch", "note_on", "note_off", "sound_off", "velocity", "track", "channel", "note_on_tick",
+         "note_off_tick", "foo"]
+
+
+def gen_ctl(rng, pool, vals):
+    return {"t": _time(rng, pool), "n": 64 if rng.random() < 0.8 else rng.choice([1, 7, 66, 0]), "v": rng.choice(vals),
+            "tr": rng.choice([None, 0, 0, 1, 3])}
+
+
+def gen_xhist(rng):
+    """a history in which notes are also removed / inserted / copied and the control stream is edited in place"""
+    d = _untyped(gen_hist(rng, "quick"))
+    pool = sorted(set([r.get("note_on", 0.0) for r in d["notes"]] + [r.get("note_off", 1.0) for r in d["notes"]] + [0.0, 1.0, 2.5]))
+    pitches = sorted(set(r.get("pitch", r.get("midi_pitch", 60)) for r in d["notes"] if 0 <= r.get("pitch", r.get("midi_pitch", 60)) <= 127)) or [60]
+    vals = [0, 1, 63, 64, 65, 126, 127]
+    nn, nc = len(d["notes"]), len(d["controls"])
+    ops = []
+    for o in d["ops"]:
+        r = rng.random()
+        if r < 0.45:
+            k = rng.random()
+            if k < 0.18:
+                ops.append(["C", "append", gen_ctl(rng, pool, vals)])
+                nc += 1
+            elif k < 0.32:
+                i = rng.randrange(nc) if nc and rng.random() < 0.9 else nc + rng.randint(0, 1)
+                ops.append(["C", "del", i])
+                nc = max(0, nc - 1)
+            elif k < 0.5:
+                i = rng.randrange(nc) if nc and rng.random() < 0.93 else nc + rng.randint(0, 1)
+                ops.append(["C", "value", i, rng.choice(vals)])
+            elif k < 0.62:
+                i = rng.randrange(nc) if nc and rng.random() < 0.93 else nc
+                ops.append(["C", "time", i, _time(rng, pool)])
+            elif k < 0.7:
+                i = rng.randrange(nc) if nc and rng.random() < 0.93 else nc
+                ops.append(["C", "number", i, rng.choice([64, 64, 7, 66])])
+            elif k < 0.76:
+                cs = [gen_ctl(rng, pool, vals) for _ in range(rng.choice([0, 1, 2, 4]))]
+                ops.append(["C", "replace", cs])
+                nc = len(cs)
+            elif k < 0.88:
+                i = rng.randrange(nn) if nn and rng.random() < 0.9 else nn + rng.randint(0, 1)
+                ops.append(["X", i])
+                nn = max(0, nn - 1)
+            elif k < 0.95:
+                ops.append(["I", rng.randint(0, nn + 1), _gen_raw(rng, pool, pitches, 50 + len(ops))])
+                nn += 1
+            else:
+                ops.append(["Y", rng.randrange(nn) if nn and rng.random() < 0.9 else nn])
+            if rng.random() < 0.6:
+                ops.append(["T", rng.choice([0, 63, 64, 64, 126, 127])])
+        ops.append(o)
+        if o[0] == "A":
+            nn += 1
+    d["ops"] = ops
+    d["k"] = "xhist"
+    d["obj"] = bool(d.get("obj"))
+    return d
+
+
+def gen_note(rng):
+    pool = [0.0, 0.5, 1.0, 2.0, 3.5]
+    raw = _gen_raw(rng, pool, [60, 61, 72], 0)
+    ops = []
+    for _ in range(rng.randint(3, 10)):
+        r = rng.random()
+        if r < 0.4:
+            o = gen_setop(rng, pool, [60, 61, 72], 1)
+            ops.append(["S", o[2], o[3]])
+        elif r < 0.6:
+            ops.append(["G", rng.choice(NKEYS)])
+        elif r < 0.72:
+            ops.append(["H", rng.choice(NKEYS)])
+        elif r < 0.8:
+            ops.append(["L"])
+        elif r < 0.86:
+            ops.append(["D", rng.choice(NKEYS)])
+        else:
+            ops.append(["C"])
+    return {"k": "note", "raw": raw, "ops": ops}
+
+
+def gen_defaults(rng):
+    d = _untyped(gen_part(rng, "quick"))
+    if not d["notes"]:
+        d["notes"].append({"p": 60, "on": 0.0, "off": 1.0, "v": 64, "tr": 0, "ch": 1, "ot": False})
+    for n in d["notes"]:
+        n.pop("so", None)
+    return {"k": "defaults", "notes": d["notes"], "controls": d["controls"]}
+
+
+def gen_boxpart(rng):
+    tr = lambda: rng.choice([0, 0, 1, 2, 3, -1, 7])
+    otr = lambda: rng.choice([None, None, 0, 1, 2, -1, 5])
+    return {"notes": [tr() for _ in range(rng.choice([0, 1, 2, 3, 5]))],
+            "controls": [otr() for _ in range(rng.choice([0, 0, 1, 2, 4]))],
+            "programs": [otr() for _ in range(rng.choice([0, 0, 1, 2]))],
+            "metas": [rng.choice([None, 0, 1, 2, 4, 9, -1]) for _ in range(rng.choice([0, 0, 1, 2, 3, 5]))]}
+
+
+BOX_ARGS = ["list", "list", "tuple", "gen", "iter", "map", "single", "junk", "other", "str", "dict"]
+
+
+def gen_box(rng):
+    kind = rng.choice(BOX_ARGS)
+    nparts = 1 if kind == "single" else rng.choice([0, 1, 2, 2, 3, 4])
+    parts = [gen_boxpart(rng) for _ in range(nparts)]
+    d = {"k": "box", "arg": kind, "parts": parts, "ensure": rng.choice([None, True, True, False])}
+    if kind == "junk":
+        d["junk"] = sorted(set(rng.randint(0, nparts) for _ in range(rng.choice([1, 1, 2]))))
+    ops = []
+    for _ in range(rng.choice([0, 1, 2, 3, 5])):
+        r = rng.random()
+        if r < 0.45:
+            ops.append(["Z"])
+        elif r < 0.8:
+            ops.append(["P", rng.randint(0, max(0, nparts - 1)) if rng.random() < 0.9 else nparts + 1, gen_boxpart(rng)])
+        else:
+            ops.append(["Q", gen_boxpart(rng)])
+            nparts += 1
+    if ops and rng.random() < 0.6:
+        ops.append(["Z"])
+    d["ops"] = ops
+    return d
+
+
 def cases(rng, tier):
     n = {"quick": 400, "thorough": 20000, "search": 6000}.get(tier, 400)
     ptier = "quick" if tier == "search" else tier
@@ -614,6 +791,15 @@ def cases(rng, tier):
             yield gen_perf(rng)
         if i % 10 == 3:
             yield gen_np(rng)
+        # round 5: removals / control edits, the reader side of one note, keyword defaults, the Performance container
+        if i % 3 == 1:
+            yield gen_xhist(rng)
+        if i % 5 == 2:
+            yield gen_box(rng)
+        if i % 8 == 5:
+            yield gen_note(rng)
+        if i % 16 == 9:
+            yield gen_defaults(rng)
 
 
 # ---------------------------------------------------------------------------------- reference (oracle)
@@ -1347,6 +1533,425 @@ def eval_np(d):
     return ev
 
 
+
+# ---------------------------------------------------------------------------------- round 5 evaluators
+def _nview(n):
+    g = n.pnote_dict
+    return W.f_tuple(str(g.get("id")), W.f_int(g["pitch"]), W.f_opt(W.f_int, g.get("midi_pitch")), W.f_rat(F(g["note_on"])),
+                     W.f_rat(F(g["note_off"])), W.f_rat(F(g["sound_off"])), W.f_int(g["velocity"]), W.f_int(g["track"]),
+                     W.f_int(g["channel"]), W.f_opt(W.f_int, g.get("note_on_tick")), W.f_opt(W.f_int, g.get("note_off_tick")))
+
+
+def _set_tok(k, v):
+    if k in ("note_on", "note_off", "sound_off"):
+        return "%s %s" % (k, W.q(v))
+    if k == "id":
+        return "id %s" % W.s(v)
+    if k in INT_KEYS:
+        return "%s %d" % (k, v)
+    return "other"
+
+
+def _key_tok(k):
+    return k if k in KEYS else "other"
+
+
+def eval_note(d):
+    import partitura.performance as P
+
+    ev = Eval()
+    raw, ops = d["raw"], d["ops"]
+    toks = []
+    for o in ops:
+        if o[0] == "S":
+            toks.append("S " + _set_tok(o[1], o[2]))
+        elif o[0] in ("G", "H", "D"):
+            toks.append("%s %s" % (o[0], _key_tok(o[1])))
+        else:
+            toks.append(o[0])
+    ev.requests.append("note %s %d %s" % (_raw_toks(raw), len(ops), " ".join(toks)))
+    wf = _wellformed_raw(raw)
+    try:
+        n = P.PerformedNote(dict(raw))
+    except Exception as e:
+        ev.impl.append("err")
+        if wf is True:
+            ev.oracle.append("total: PerformedNote raised %s: %s on a well-formed note" % (type(e).__name__, e))
+        return ev
+    if wf is None:
+        ev.oracle.append("validation: a note with onset<0, release<onset, pitch or velocity outside 0..127 was accepted")
+    v0 = _nview(n)
+    steps = []
+    cnt = {}
+    for o in ops:
+        try:
+            if o[0] == "S":
+                n[o[1]] = o[2]
+                tok = "ok"
+            elif o[0] == "G":
+                v = n[o[1]]
+                if v is None:
+                    tok = "None"
+                elif o[1] == "id":
+                    tok = str(v)
+                elif o[1] in ("note_on", "note_off", "sound_off"):
+                    tok = W.f_rat(F(v))
+                else:
+                    tok = W.f_int(v)
+            elif o[0] == "H":
+                tok = W.f_bool(o[1] in n)
+            elif o[0] == "L":
+                tok = "%d" % len(n)
+            elif o[0] == "D":
+                del n[o[1]]
+                tok = "ok"
+            else:
+                # (the property is silent about copies: compared with the model only — the copy of a note whose current
+                # values pass the validators is that note, any other note cannot be copied)
+                m = n.copy()
+                n = m
+                tok = "ok"
+        except Exception as e:
+            tok = _errtok(e)
+        cnt["note_%s_%s" % (o[0], "ok" if tok not in ("K", "V", "I") else tok)] = cnt.get("note_%s_%s" % (o[0], "ok" if tok not in ("K", "V", "I") else tok), 0) + 1
+        steps.append(W.f_tuple(tok, _nview(n)))
+    ev.impl.append(W.f_tuple(v0, "[" + ",".join(steps) + "]"))
+    ev.info = cnt
+    ev.key = ev.requests[0]
+    return ev
+
+
+def _ctl_view(pp):
+    return "[" + ",".join(W.f_tuple(W.f_int(c["number"]), W.f_rat(F(c["time"])), W.f_int(c["value"])) for c in pp.controls) + "]"
+
+
+def _xop_tok(o):
+    if o[0] == "T":
+        return "T %d" % o[1]
+    if o[0] == "S":
+        return "S %d %s" % (o[1], _set_tok(o[2], o[3]))
+    if o[0] == "A":
+        return "A " + _raw_toks(o[1])
+    if o[0] == "X":
+        return "X %d" % o[1]
+    if o[0] == "I":
+        return "I %d %s" % (o[1], _raw_toks(o[2]))
+    if o[0] == "Y":
+        return "Y %d" % o[1]
+    c = o[1]
+    if c == "append":
+        return "C append %s %s %s %s" % (W.i(o[2]["n"]), W.q(o[2]["t"]), W.i(o[2]["v"]), W.opt(W.i, o[2]["tr"]))
+    if c == "del":
+        return "C del %d" % o[2]
+    if c == "time":
+        return "C time %d %s" % (o[2], W.q(o[3]))
+    if c in ("number", "value"):
+        return "C %s %d %d" % (c, o[2], o[3])
+    return "C replace " + _req_controls(o[2])
+
+
+def eval_xhist(d):
+    import partitura.performance as P
+
+    ev = Eval()
+    raws, controls, thr0, ops, mpq, ppq = d["notes"], d["controls"], d["thr"], d["ops"], d["mpq"], d["ppq"]
+    ev.requests.append("xhist %d %d %d %s %s %d %s" % (thr0, mpq, ppq, _req_raws(raws), _req_controls(controls), len(ops),
+                                                      " ".join(_xop_tok(o) for o in ops)))
+    wf = [_wellformed_raw(r) for r in raws]
+    try:
+        pp = P.PerformedPart(_mk_notes(P, raws, d.get("obj")), id="P0", controls=_control_dicts(controls),
+                             sustain_pedal_threshold=thr0, ppq=ppq, mpq=mpq)
+    except Exception as e:
+        ev.impl.append("err")
+        if all(w is True for w in wf):
+            ev.oracle.append("total: building the part raised %s: %s (thr=%d)" % (type(e).__name__, e, thr0))
+        return ev
+    if any(w is None for w in wf):
+        ev.oracle.append("validation: a note with onset<0, release<onset, pitch or velocity outside 0..127 was accepted")
+    contra = [_contra(r) for r in raws]
+    cur = [dict(c) for c in controls]  # the control stream as it is now (description level, for the reference)
+    judged = 1 if _judge_state(ev, pp, cur, thr0, "construction", contra) else 0
+    v0 = _view(pp)
+    steps = []
+    cnt = {}
+    last_thr = thr0
+    for oi, o in enumerate(ops):
+        what = o[0] + ("_" + o[1] if o[0] == "C" else "")
+        try:
+            if o[0] == "T":
+                pp.sustain_pedal_threshold = o[1]
+                last_thr = o[1]
+                judged += 1 if _judge_state(ev, pp, cur, o[1], "assignment %d (after removals / control edits)" % oi, contra) else 0
+                if all(_claimed(n.pnote_dict) for n in pp.notes) and not any(contra) and all(
+                        _wellformed_raw({k: v for k, v in n.pnote_dict.items() if k != "sound_off"}) is True for n in pp.notes):
+                    # setting = recomputing from what the part holds NOW: a part freshly built from the current notes
+                    # (without their sounding ends) and the current controls sounds the same
+                    cp = [{k: v for k, v in n.pnote_dict.items() if k != "sound_off"} for n in pp.notes]
+                    try:
+                        fresh = P.PerformedPart(cp, controls=[dict(c) for c in pp.controls], sustain_pedal_threshold=o[1])
+                        a, b = _sounds(pp), _sounds(fresh)
+                        if a != b:
+                            ev.oracle.append("recompute: after statement %d the notes sound until %s, a part freshly built from the "
+                                             "current notes and controls gives %s" % (oi, a, b))
+                    except Exception as e:
+                        ev.oracle.append("total: building a part from the current notes raised %s: %s" % (type(e).__name__, e))
+            elif o[0] == "S":
+                pp.notes[o[1]][o[2]] = o[3]
+                if o[2] == "pitch":
+                    contra[o[1]] = False
+            elif o[0] == "A":
+                pp.notes.append(P.PerformedNote(dict(o[1])))
+                contra.append(_contra(o[1]))
+            elif o[0] == "X":
+                if o[1] >= len(pp.notes):
+                    raise IndexError("no such note")
+                del pp.notes[o[1]]
+                del contra[o[1]]
+            elif o[0] == "I":
+                pp.notes.insert(o[1], P.PerformedNote(dict(o[2])))
+                contra.insert(o[1], _contra(o[2]))
+            elif o[0] == "Y":
+                pp.notes[o[1]] = pp.notes[o[1]].copy()
+            else:
+                c = o[1]
+                if c == "append":
+                    pp.controls.append(_control_dicts([o[2]])[0])
+                    cur.append(dict(o[2]))
+                elif c == "del":
+                    del pp.controls[o[2]]
+                    del cur[o[2]]
+                elif c == "replace":
+                    pp.controls = _control_dicts(o[2])
+                    cur = [dict(x) for x in o[2]]
+                else:
+                    pp.controls[o[2]][c] = o[3]
+                    cur[o[2]] = dict(cur[o[2]], **{{"number": "n", "time": "t", "value": "v"}[c]: o[3]})
+            tok = "ok"
+        except Exception as e:
+            tok = _errtok(e)
+            if o[0] == "T":
+                tok = "F"
+                ev.oracle.append("total: assigning the threshold raised %s: %s" % (type(e).__name__, e))
+        cnt["x_%s_%s" % (what, tok)] = cnt.get("x_%s_%s" % (what, tok), 0) + 1
+        steps.append(W.f_tuple(tok, _view(pp), _ctl_view(pp)))
+    try:
+        na = pp.note_array()
+        rows = "[" + ",".join(_arow(r) for r in na) + "]"
+        _judge_rows(ev, pp, na, "after the history", contra)
+    except Exception as e:
+        rows = "err"
+        ev.oracle.append("total: note_array raised %s: %s" % (type(e).__name__, e))
+    ntr = pp.num_tracks
+    want = len(set([n["track"] for n in pp.notes] + [c.get("track", -1) for c in pp.controls]))
+    if ntr != want:
+        ev.oracle.append("tracks: num_tracks of the part is %d, its notes and controls are on %d tracks" % (ntr, want))
+    ev.impl.append(W.f_tuple(v0, "[" + ",".join(steps) + "]", rows, "%d" % ntr, _ctl_view(pp)))
+    cnt["xhist_judged_states"] = judged
+    ev.info = cnt
+    if pp.notes or steps:
+        ev.key = ev.requests[0]
+    return ev
+
+
+def eval_defaults(d):
+    import inspect
+
+    import partitura.performance as P
+
+    ev = Eval()
+    notes, controls = d["notes"], d["controls"]
+    blank = P.PerformedPart([])
+    mpq, ppq = blank.mpq, blank.ppq  # the live defaults (a given tick of the description is relative to them)
+    ev.requests.append("defaults %s %s" % (_req_notes(notes, mpq, ppq), _req_controls(controls)))
+    try:
+        pp = P.PerformedPart(_note_dicts(notes, mpq, ppq), controls=_control_dicts(controls))
+        so = _sounds(pp)
+        na = pp.note_array()
+        rows = [(F(r["onset_sec"]), F(r["duration_sec"]), int(r["onset_tick"]), int(r["duration_tick"]),
+                 int(r["pitch"]), int(r["velocity"]), int(r["track"]), int(r["channel"])) for r in na]
+        plain = _note_dicts(notes, mpq, ppq)
+        for g in plain:  # what PerformedNote would add; the function itself only needs the three keys it reads
+            g.setdefault("pitch", g["midi_pitch"])
+        P.adjust_offsets_w_sustain(plain, _control_dicts(controls))
+        direct = [F(g["sound_off"]) for g in plain]
+    except Exception as e:
+        ev.impl.append("err")
+        ev.oracle.append("total: building the part with the keyword defaults raised %s: %s" % (type(e).__name__, e))
+        return ev
+    ev.impl.append(W.f_tuple(_fmt_q(so), W.f_list(lambda r: W.f_tuple(W.f_rat(r[0]), W.f_rat(r[1]), *[W.f_int(x) for x in r[2:]]), rows),
+                             _fmt_q(direct)))
+    # the property under whatever threshold is in force
+    for snd, thr, what in ((so, pp.sustain_pedal_threshold, "default threshold of the part"),
+                           (direct, inspect.signature(P.adjust_offsets_w_sustain).parameters["threshold"].default,
+                            "default threshold of adjust_offsets_w_sustain")):
+        for i, (s_, (kind, val)) in enumerate(zip(snd, reference(notes, controls, thr))):
+            rel = F(notes[i]["off"])
+            if s_ < rel:
+                ev.oracle.append("ge_release: %s thr=%s note %d sounds until %s < release %s" % (what, thr, i, s_, rel))
+            elif kind == "eq" and s_ != val:
+                ev.oracle.append("pedal: %s thr=%s note %d sounds until %s, the pedal dictates %s" % (what, thr, i, s_, val))
+    for i, (r, n) in enumerate(zip(rows, notes)):
+        if not n.get("ot") and r[2] != ref_tick(F(n["on"]), pp.mpq, pp.ppq):
+            ev.oracle.append("rows: note %d onset_tick %d != ticks(onset_sec) %d under the part's ppq=%d mpq=%d" % (
+                i, r[2], ref_tick(F(n["on"]), pp.mpq, pp.ppq), pp.ppq, pp.mpq))
+    ev.info = {"defaults_cases": 1}
+    ev.key = ev.requests[0]
+    return ev
+
+
+def _box_toks(p):
+    return " ".join([W.lst(W.i, p["notes"]), W.lst(lambda x: W.opt(W.i, x), p["controls"]),
+                     W.lst(lambda x: W.opt(W.i, x), p["programs"]), W.lst(lambda x: W.opt(W.i, x), p["metas"])])
+
+
+def _mk_boxpart(P, p, name):
+    notes = [dict(id="%sn%d" % (name, i), midi_pitch=60, note_on=float(i), note_off=float(i) + 0.5, velocity=64, track=t, channel=1)
+             for i, t in enumerate(p["notes"])]
+
+    def lst(ts, **kw):
+        out = []
+        for t in ts:
+            c = dict(kw)
+            if t is not None:
+                c["track"] = t
+            out.append(c)
+        return out
+
+    m = p["metas"]
+    a, b = len(m) // 3, len(m) - len(m) // 3
+    return P.PerformedPart(notes, id=name, controls=lst(p["controls"], type="sustain_pedal", number=64, time=0.0, value=0, channel=1),
+                           programs=lst(p["programs"], time=0.0, program=1, channel=1),
+                           key_signatures=lst(m[:a], time=0.0, key="C"), time_signatures=lst(m[a:b], time=0.0, beats=4, beat_type=4),
+                           meta_other=lst(m[b:], time=0.0, text="x"))
+
+
+def _box_snap(pps):
+    out = []
+    for pp in pps:
+        out.append(([n["track"] for n in pp.notes], [c.get("track") for c in pp.controls], [c.get("track") for c in pp.programs],
+                    [c.get("track") for c in pp.key_signatures + pp.time_signatures + pp.meta_other]))
+    return out
+
+
+def _box_view(perf):
+    snap = _box_snap(perf.performedparts)
+    fo = lambda l: W.f_list(lambda x: W.f_opt(W.f_int, x), l)
+    return W.f_tuple("%d" % len(perf), "%d" % perf.num_tracks, W.f_list(W.f_int, [pp.num_tracks for pp in perf.performedparts]),
+                     W.f_list(lambda x: W.f_tuple(W.f_list(W.f_int, x[0]), fo(x[1]), fo(x[2]), fo(x[3])), snap))
+
+
+def _judge_renumbered(ev, before, after, ntr, what):
+    """`before` / `after`: snapshots around one renumbering.  Unique without mixing parts: the new number is a function
+    of (part, old track) on the notes, controls and programs, injective; a key / time signature or other meta event
+    that was on a track of its part's notes, controls or programs is still on it; num_tracks counts the pairs."""
+    old = lambda t: -1 if t is None else t
+    fwd, bwd = {}, {}
+    for i, (b, a) in enumerate(zip(before, after)):
+        for f in range(3):
+            for t0, t1 in zip(b[f], a[f]):
+                k = (i, old(t0))
+                if t1 is None or fwd.setdefault(k, t1) != t1:
+                    ev.oracle.append("tracks: %s: (part, track) %s is sent to both %s and %s" % (what, k, fwd.get(k), t1))
+                elif bwd.setdefault(t1, k) != k:
+                    ev.oracle.append("tracks: %s: new track %s is shared by %s and %s" % (what, t1, bwd[t1], k))
+    for i, (b, a) in enumerate(zip(before, after)):
+        for t0, t1 in zip(b[3], a[3]):
+            k = (i, old(t0))
+            if k in fwd and t1 != fwd[k]:
+                ev.oracle.append("tracks: %s: a meta event of part %d on old track %s is now on %s, the notes / controls of that "
+                                 "track on %s" % (what, i, t0, t1, fwd[k]))
+    if ntr != len(fwd):
+        ev.oracle.append("tracks: %s: num_tracks %d, %d distinct (part, track) pairs" % (what, ntr, len(fwd)))
+    return len(fwd)
+
+
+def eval_box(d):
+    import partitura.performance as P
+
+    ev = Eval()
+    kind, parts, ens, ops = d["arg"], d["parts"], d.get("ensure"), d["ops"]
+    pps = [_mk_boxpart(P, p, "P%d" % i) for i, p in enumerate(parts)]
+    junk = d.get("junk") or []
+    if kind == "single":
+        arg, atok = pps[0], "single " + _box_toks(parts[0])
+    elif kind == "other":
+        arg, atok = 5, "other"
+    elif kind == "str":
+        arg, atok = "ab", "items 2 - -"
+    elif kind == "dict":
+        arg, atok = {"k%d" % i: pp for i, pp in enumerate(pps)}, "items %d %s" % (len(pps), " ".join("-" for _ in pps))
+    elif kind == "junk":
+        items, toks = [], []
+        for i, pp in enumerate(pps + [None]):
+            if i in junk:
+                items.append({"not": "a part"})
+                toks.append("-")
+            if pp is not None:
+                items.append(pp)
+                toks.append(_box_toks(parts[i]))
+        arg, atok = items, "items %d %s" % (len(items), " ".join(toks))
+    else:
+        atok = "items %d %s" % (len(pps), " ".join(_box_toks(p) for p in parts))
+        arg = {"list": lambda: list(pps), "tuple": lambda: tuple(pps), "gen": lambda: (pp for pp in pps), "iter": lambda: iter(pps),
+               "map": lambda: map(lambda x: x, pps)}[kind]()
+    otoks = []
+    for o in ops:
+        otoks.append("Z" if o[0] == "Z" else "P %d %s" % (o[1], _box_toks(o[2])) if o[0] == "P" else "Q " + _box_toks(o[1]))
+    ev.requests.append("box %s %s %d %s" % (W.opt(W.b, ens), atok, len(ops), " ".join(otoks)))
+    proper = kind in ("list", "tuple", "gen", "iter", "map", "single")
+    before = _box_snap(pps)
+    try:
+        perf = P.Performance(arg) if ens is None else P.Performance(arg, ensure_unique_tracks=ens)
+    except Exception as e:
+        ev.impl.append("err")
+        if proper:
+            ev.oracle.append("container: Performance(<%s of %d parts>) raised %s: %s" % (kind, len(pps), type(e).__name__, e))
+        ev.info = {"box_arg_%s_rejected" % kind: 1}
+        return ev
+    info = {"box_arg_%s_accepted" % kind: 1}
+    if proper:
+        if len(perf) != len(pps) or any(a is not b for a, b in zip(perf.performedparts, pps)):
+            ev.oracle.append("container: Performance(<%s of %d parts>) holds %d parts" % (kind, len(pps), len(perf)))
+        elif ens is not False:  # `ensure_unique_tracks` given as True or left at its default
+            info["box_pairs"] = _judge_renumbered(ev, before, _box_snap(perf.performedparts), perf.num_tracks, "construction")
+    v0 = _box_view(perf)
+    steps = []
+    for oi, o in enumerate(ops):
+        try:
+            if o[0] == "Z":
+                b4 = _box_snap(perf.performedparts)
+                perf.sanitize_track_numbers()
+                af = _box_snap(perf.performedparts)
+                _judge_renumbered(ev, b4, af, perf.num_tracks, "statement %d" % oi)
+                info["box_metas_followed"] = info.get("box_metas_followed", 0) + sum(
+                    1 for i, (b, a) in enumerate(zip(b4, af)) for t0 in b[3]
+                    if (-1 if t0 is None else t0) in [(-1 if t is None else t) for f in range(3) for t in b[f]])
+                info["box_metas_left"] = info.get("box_metas_left", 0) + sum(
+                    1 for i, (b, a) in enumerate(zip(b4, af)) for t0 in b[3]
+                    if (-1 if t0 is None else t0) not in [(-1 if t is None else t) for f in range(3) for t in b[f]])
+                # renumbering again changes nothing
+                perf.sanitize_track_numbers()
+                if _box_snap(perf.performedparts) != af:
+                    ev.oracle.append("tracks: statement %d: renumbering a second time changed the numbers: %s -> %s" % (
+                        oi, af, _box_snap(perf.performedparts)))
+            elif o[0] == "P":
+                perf[o[1]] = _mk_boxpart(P, o[2], "S%d" % oi)
+            else:
+                perf.performedparts.append(_mk_boxpart(P, o[1], "Q%d" % oi))
+            tok = "ok"
+        except Exception as e:
+            tok = _errtok(e) if o[0] != "Z" else "F"
+            if o[0] == "Z":
+                ev.oracle.append("tracks: renumbering raised %s: %s" % (type(e).__name__, e))
+        info["box_%s_%s" % (o[0], tok)] = info.get("box_%s_%s" % (o[0], tok), 0) + 1
+        steps.append(W.f_tuple(tok, _box_view(perf)))
+    ev.impl.append(W.f_tuple(v0, "[" + ",".join(steps) + "]"))
+    ev.info = info
+    if len(perf) >= 1:
+        ev.key = ev.requests[0]
+    return ev
+
+
 def evaluate(d):
     if d["k"] == "tracks":
         return eval_tracks(d)
@@ -1356,6 +1961,14 @@ def evaluate(d):
         return eval_perf(d)
     if d["k"] in ("ss", "asort", "npst"):
         return eval_np(d)
+    if d["k"] == "xhist":
+        return eval_xhist(d)
+    if d["k"] == "note":
+        return eval_note(d)
+    if d["k"] == "defaults":
+        return eval_defaults(d)
+    if d["k"] == "box":
+        return eval_box(d)
     return eval_part(d)
 
 
@@ -1390,6 +2003,36 @@ def shrink(d):
                     if f == "notes":  # ids carry the position
                         q[f] = [dict(r, id="n%d" % k) if "id" in r else r for k, r in enumerate(q[f])]
                     yield dict(d, parts=d["parts"][:i] + [q] + d["parts"][i + 1:])
+        return
+    if d["k"] in ("xhist", "note", "box"):
+        ops = d["ops"]
+        for i in range(len(ops) - 1, -1, -1):
+            yield dict(d, ops=ops[:i] + ops[i + 1:])
+        if d["k"] == "xhist":
+            for i in range(len(d["controls"])):
+                if not any(o[0] == "C" for o in ops):
+                    yield dict(d, controls=d["controls"][:i] + d["controls"][i + 1:])
+            if not any(o[0] in ("S", "X", "I", "Y") for o in ops):
+                for i in range(len(d["notes"])):
+                    yield dict(d, notes=d["notes"][:i] + d["notes"][i + 1:])
+            if d.get("obj"):
+                yield dict(d, obj=False)
+        if d["k"] == "box" and d["arg"] not in ("single", "junk") and not any(o[0] == "P" for o in ops):
+            for i in range(len(d["parts"])):
+                yield dict(d, parts=d["parts"][:i] + d["parts"][i + 1:])
+        if d["k"] == "box":
+            for i, p in enumerate(d["parts"]):
+                for f in ("notes", "controls", "programs", "metas"):
+                    for j in range(len(p[f])):
+                        q = dict(p)
+                        q[f] = p[f][:j] + p[f][j + 1:]
+                        yield dict(d, parts=d["parts"][:i] + [q] + d["parts"][i + 1:])
+        return
+    if d["k"] == "defaults":
+        for f in ("controls", "notes"):
+            for i in range(len(d[f])):
+                if f == "controls" or len(d[f]) > 1:
+                    yield dict(d, **{f: d[f][:i] + d[f][i + 1:]})
         return
     if d["k"] == "hist":
         ops = d["ops"]
